@@ -156,6 +156,8 @@ func RunPipeline(seed int64, tier, driver, outDir string, n int, search bool, co
 	failSeen := map[string]bool{}
 	seen := map[string]bool{}
 	recs, qs, qhits, qerrs, rotated, bkq, reop := 0, 0, 0, 0, 0, 0, 0
+	reopBy := map[string]int{}
+	_ = reop
 	for i, run := range runs {
 		c := cases[i]
 		res.Cases++
@@ -168,6 +170,9 @@ func RunPipeline(seed int64, tier, driver, outDir string, n int, search bool, co
 		qerrs += run.QErrs
 		bkq += run.BkQueries
 		reop += run.Reopened
+		for k, v := range run.ReopenedBy {
+			reopBy[k] += v
+		}
 		if c.Cfg.Max > 0 && run.Txs > c.Cfg.Max && run.Records == c.Cfg.Max {
 			rotated++
 		}
@@ -213,7 +218,7 @@ func RunPipeline(seed int64, tier, driver, outDir string, n int, search bool, co
 			res.Failures = append(res.Failures, core.FailRec{Prop: "C17", Msg: msg, File: file})
 		}
 	}
-	res.Extra = map[string]any{"records": recs, "queries": qs, "queries_with_hits": qhits, "query_errors": qerrs, "cases_rotated_at_max": rotated, "backend_queries_compared": bkq, "bbolt_stores_reopened_after_sync": reop}
+	res.Extra = map[string]any{"records": recs, "queries": qs, "queries_with_hits": qhits, "query_errors": qerrs, "cases_rotated_at_max": rotated, "backend_queries_compared": bkq, "stores_reopened_after_sync": reopBy}
 	res.WallS = time.Since(t0).Seconds()
 	return res
 }
